@@ -957,7 +957,7 @@ class Buffer(gpp.UGenParameter, gpp.NodeParameter):
 
     def copy_data(self, dst_buffer, dst_start=0, start=0,
                   num_samples=-1, action=None):
-        if self._bufnum is None:
+        if self._bufnum is None or dst_buffer.bufnum is None:
             raise BufferAlreadyFreed('copy_data')
 
         if action is not None:
@@ -979,7 +979,7 @@ class Buffer(gpp.UGenParameter, gpp.NodeParameter):
 
     def prepare_partconv(self, buf, fftsize):
         # self is irbuffer.
-        if self._bufnum is None:
+        if self._bufnum is None or buf.bufnum is None:
             raise BufferAlreadyFreed('prepare_partconv')
         self._server.addr.send_msg(
             '/b_gen', self.bufnum, 'PreparePartConv', buf.bufnum, fftsize)
